@@ -865,11 +865,10 @@ class InterfaceClass(_InterfaceClassBase):
         if not all:
             return self.__attrs.items()
 
+        # Follow the resolution order, like ``get``/``__getitem__`` do.
         r = {}
-        for base in self.__bases__[::-1]:
-            r.update(dict(base.namesAndDescriptions(all)))
-
-        r.update(self.__attrs)
+        for iface in self.__iro__[::-1]:
+            r.update(iface.namesAndDescriptions())
 
         return r.items()
 
